@@ -2,7 +2,8 @@ import Driver.Util
 import WildModel.Model.EhFrame
 /-! C10 line protocol (model side).
 `ehframe <base> <obj> <obj> ...`, `<obj>` = `<secs>|<entries>`; `<secs>` = `,`-separated `<addr or ->:<size>`;
-`<entries>` = `,`-separated `C:<size>:<tag>` or `F:<size>:<ciePos>:<target or ->:<off>`
+`<entries>` = `,`-separated `C:<size>:<tag>` or `F:<size>:<ciePos>:<target or ->:<off>` (the entries of all
+`.eh_frame` input sections of the object, in section order; `<ciePos>` is an offset in that concatenation)
 → `count=<n> hdr=<pc>:<fde>,... fdes=<addr>:<cieAddr>:<pc>,... cies=<addr>:<tag>,...` or `fail`. -/
 namespace Driver
 open Wild.EhFrame
